@@ -14,6 +14,9 @@ from the epoch):
            225 min.  TLEs are executed one after another in a long-lived process (an incidental long
            history); a failing case records the units the process executed before it, and replay
            re-executes them.
+* mod      orbits obtained from Tle.orbit() (or a copy) and modified (B*, M, e, epoch) or relabelled (epoch in TT /
+           GPS / TAI, same instant) BEFORE their propagator is initialised, propagated by Date (UTC or relabelled) and
+           timedelta: the state is the reference state of the element set the orbit stands for NOW.
 * hist     explicit-state part: every history up to a small depth of {bind propagator slot to an orbit
            of TLE A/B/C, propagate a slot (by Date or timedelta), copy a propagator, propagate through a
            fresh Orbit or an Orbit copy, mutate a returned state in place (frame / form setter,
@@ -53,8 +56,8 @@ RULE = (
     "using an unbound slot pruned); the final propagation is compared; non-trivial = history of >= 2 operations"
 )
 BOUNDS = {
-    "quick": "product: all TLE tuples with <= 3 deviating fields x 7 date offsets (+ one timedelta call per TLE); hist: all histories of <= 4 operations (Sgp4, alphabet of 18 operations, 11 370 histories) / <= 4 operations (Sgp4Beta, 10 operations, 762 histories); alias family (one propagator, prop by Date / timedelta, in-place mutation of returned states): <= 5 operations (3 800 histories per propagator)",
-    "thorough": "product: <= 5 deviating fields; hist: <= 4 operations (Sgp4, 11 370 histories) / <= 6 (Sgp4Beta, 79 062 histories); alias family <= 6 operations",
+    "quick": "product: all TLE tuples with <= 3 deviating fields x 7 date offsets (+ one timedelta call per TLE); hist: all histories of <= 4 operations (Sgp4, alphabet of 18 operations, 11 370 histories) / <= 4 operations (Sgp4Beta, 10 operations, 762 histories); mod: 3 element sets x 5 modifications x in-place/copy x epoch scale {UTC, TT, GPS; TAI, TT under real IERS tables} x 3 call forms x 2 dates, both propagators; alias family (one propagator, prop by Date / timedelta, in-place mutation of returned states): <= 5 operations (3 800 histories per propagator)",
+    "thorough": "product: <= 5 deviating fields; hist: <= 4 operations (Sgp4, 11 370 histories) / <= 6 (Sgp4Beta, 79 062 histories); alias family <= 5 operations",
 }
 ASSUMPTIONS = [
     "oracle = sgp4.api.Satrec accelerated C++ build, WGS-72, opsmode 'i', driven by exact minutes since epoch",
@@ -135,6 +138,7 @@ def count_tuples(bound):
 # units
 
 CFG_PRODUCT = {"eop": "pass", "part": "product"}
+CFG_MOD_REAL = {"eop": "real", "part": "hist"}  # real IERS tables (TAI-UTC = leap seconds), same isolation discipline
 CFG_HIST = {"eop": "pass", "part": "hist"}  # own worker group: these workers never execute library code themselves
 
 
@@ -143,7 +147,7 @@ def units(tier, seed):
     parts = 48 if tier == "quick" else 384
     u = [(CFG_PRODUCT, dict(part="product", bound=bound, j=(j + seed) % parts, parts=parts)) for j in range(parts)]
     depth = {"wrapper": 4, "native": 4} if tier == "quick" else {"wrapper": 4, "native": 6}
-    adepth = 5 if tier == "quick" else 6
+    adepth = 5  # both tiers (depth 6 costs 10 CPU-minutes for little)
     for kind in ("wrapper", "native"):
         hparts = 16 if tier == "quick" else 64
         for j in range(hparts):
@@ -151,9 +155,15 @@ def units(tier, seed):
         aparts = 8 if tier == "quick" else 32
         for j in range(aparts):
             u.append((CFG_HIST, dict(part="hist", kind=kind, family="alias", depth=adepth, j=j, parts=aparts)))
+    # modified / relabelled orbits (fork-isolated like the histories); TAI needs real leap seconds: own configuration
+    for cfg, scales in ((CFG_HIST, ["UTC", "TT", "GPS"]), (CFG_MOD_REAL, ["TAI", "TT"])):
+        for kind in ("wrapper", "native"):
+            for x in "ABC":
+                u.append((cfg, dict(part="mod", kind=kind, tle=x, scales=scales)))
     return u
 
 
+_CFGNOW = {}
 _PROC = []  # product payloads this process has started, in order (the process history of a product case)
 
 
@@ -161,7 +171,21 @@ def setup(config):
     from beyond.config import config as bc
     from mc.ref import sgp4_ref
 
-    bc.update({"eop": {"missing_policy": "pass"}})
+    if (config or {}).get("eop") == "real":
+        from mc import engine
+
+        pole = os.path.join(engine.repo_path(), "tests", "data", "pole")
+        if not os.path.isdir(pole):
+            pole = "/repo/tests/data/pole"
+        bc.update({"eop": {"folder": pole, "type": "all", "missing_policy": "pass"}})
+        from beyond.dates.eop import EopDb
+
+        if EopDb.get(57511.5).tai_utc != 36:
+            raise RuntimeError("harness: real EOP tables not active")
+    else:
+        bc.update({"eop": {"missing_policy": "pass"}})
+    _CFGNOW.clear()
+    _CFGNOW.update(config or CFG_HIST)
     sgp4_ref.require_accelerated()
     # import (not execute) everything the histories need, so that forked children do not pay for it
     import numpy  # noqa
@@ -184,6 +208,9 @@ def run_unit(p, t):
         for j, idx in enumerate(enum_tuples(p["bound"])):
             if j % p["parts"] == p["j"]:
                 check_tle(list(idx), t)
+    elif p["part"] == "mod":
+        for case in mod_cases(p["kind"], p["tle"], p["scales"]):
+            check_mod(case, t, isolate=True)
     else:
         for j, ops in enumerate(enum_histories(p["kind"], p["depth"], p["family"])):
             if j % p["parts"] == p["j"]:
@@ -195,6 +222,9 @@ def replay(case, t):
 
     if case.get("part") == "hist":
         check_history(case, t, isolate=False)
+        return
+    if case.get("part") == "mod":
+        check_mod(case, t, isolate=False)
         return
     # product: bring the process into the state it had (every unit it ran before, then the TLEs of the
     # current unit that precede the case), then run the TLE of the case
@@ -728,3 +758,115 @@ def _history_once(case, t, isolate):
     t.outcome(("hist", kind, cls, last[0], ok))
     if len(ops) == 3 and cls == "after-other-tle" and len(t.samples) < 2:
         t.sample(dict(kind=kind, ops=ops))
+
+
+# ---------------------------------------------------------------------------
+# mod part: orbits modified or relabelled between Tle.orbit() and the initialisation of their propagator
+
+MODS = ["none", "bstar", "M", "e", "date"]  # values on the printing grid, so that the library's regenerated TLE is exact
+MOD_VALUES = dict(bstar=5e-4, M=100.0, e=0.002, date_shift_us=43200 * 10 ** 6)
+CALLS = ["date-utc", "date-scale", "timedelta"]
+
+
+def mod_cases(kind, x, scales):
+    out = []
+    for mod in MODS:
+        for where in ("inplace", "copy"):
+            for scale in scales:
+                for call in CALLS:
+                    for d in ("d1", "d2"):
+                        out.append(dict(part="mod", kind=kind, tle=x, mod=mod, where=where, scale=scale, call=call, dt=d, config=dict(_CFGNOW)))
+    return out
+
+
+def exec_mod(arg):
+    """Pristine state: Tle.orbit() -> (copy) -> modify one field / relabel the epoch's scale -> propagate."""
+    import math
+    import numpy as np
+    from datetime import timedelta
+    from beyond.io.tle import Tle
+    from beyond.propagators.sgp4beta import Sgp4Beta
+
+    try:
+        orb = Tle(arg["text"]).orbit()
+        if arg["where"] == "copy":
+            orb = orb.copy()
+        mod = arg["mod"]
+        if mod == "bstar":
+            orb.bstar = MOD_VALUES["bstar"]
+        elif mod == "M":
+            orb.M = math.radians(MOD_VALUES["M"])
+        elif mod == "e":
+            orb[2] = MOD_VALUES["e"]
+        elif mod == "date":
+            orb.date = orb.date + timedelta(microseconds=MOD_VALUES["date_shift_us"])
+        if arg["scale"] != "UTC":
+            orb.date = orb.date.change_scale(arg["scale"])  # same instant, other label
+        td = timedelta(microseconds=H_DTS[arg["dt"]])
+        target = orb.date.change_scale("UTC") + td
+        if arg["call"] == "date-utc":
+            req = target
+        elif arg["call"] == "date-scale":
+            req = target.change_scale(arg["scale"])
+        else:
+            req = td
+        if arg["kind"] == "wrapper":
+            sv = orb.propagate(req)
+        else:
+            p = Sgp4Beta()
+            p.orbit = orb
+            sv = p.propagate(req)
+        x, frame, form, _ = _snapshot(sv)
+        return dict(x=x, frame=frame, form=form, date_ok=bool(sv.date == target), epoch_utc=str(orb.date.change_scale("UTC")))
+    except Exception as e:
+        return dict(exc=repr(e) + traceback.format_exc()[-500:])
+
+
+def check_mod(case, t, isolate):
+    from datetime import timedelta
+    from mc.ref import sgp4_ref, tle_codec as tc
+
+    kind, x, mod = case["kind"], case["tle"], case["mod"]
+    idx = H_TLES[kind][x]
+    v = resolve(idx)
+    l1, l2 = _encode(v)
+    # the element set the modified orbit stands for, written by the codec
+    v2 = list(v)
+    epoch = tc.epoch_datetime(tc.decode(l1, l2))
+    if mod == "bstar":
+        v2[3] = MOD_VALUES["bstar"]
+    elif mod == "M":
+        v2[6] = MOD_VALUES["M"]
+    elif mod == "e":
+        v2[1] = MOD_VALUES["e"]
+    elif mod == "date":
+        epoch = epoch + timedelta(microseconds=MOD_VALUES["date_shift_us"])
+        v2[7] = tc.fmt_epoch(epoch)
+    m1, m2 = _encode(v2)
+    ref = sgp4_ref.Ref(m1, m2)
+    if kind == "native" and ref.full_near_earth() is not True:
+        raise AssertionError("harness: modified element set outside the native model's regime")
+    tsince = H_DTS[case["dt"]] / 6e7
+    err, r_ref, v_ref = ref.state(tsince)
+    if err:
+        raise AssertionError("harness: reference error in the mod part")
+    arg = dict(case, text=l1 + "\n" + l2)
+    obs = run_isolated(exec_mod, arg) if isolate else exec_mod(arg)
+    t.trans(3)
+    t.states_add(1)
+    t.ev(tuple(sorted((k, str(w)) for k, w in case.items() if k != "config")))
+    lib = "sgp4" if kind == "wrapper" else "sgp4beta"
+    cls = ("modified-" + ("element" if mod in ("M", "e") else mod) if mod != "none" else "unmodified") + "/" + \
+        ("epoch-utc" if case["scale"] == "UTC" else "epoch-relabelled")
+    full_case = dict(case, source_tle=[l1, l2], expected_tle=[m1, m2])
+    if "exc" in obs:
+        t.fail(f"{lib}/modified-orbit/{cls}/raises", "an orbit modified after Tle.orbit() propagates", full_case, "state", obs["exc"])
+        return
+    if obs["frame"] != "TEME" or obs["form"] != "cartesian" or not obs["date_ok"]:
+        t.fail(f"{lib}/modified-orbit/{cls}/result-labels", "result is cartesian, TEME, at the requested instant", full_case,
+               ["TEME", "cartesian", True], [obs["frame"], obs["form"], obs["date_ok"]])
+        return
+    bc = _bclass(v2[3])
+    ok = judge(kind, obs["x"], ref, tsince, r_ref, v_ref, t, full_case, f"{lib}/modified-orbit/{cls}/vs-reference", bc,
+               f"{case}; the orbit stands for {m1} / {m2}")
+    t.outcome(("mod", kind, cls, case["call"], ok))
